@@ -196,3 +196,37 @@ pub fn guarded<T>(f: impl FnOnce() -> T + std::panic::UnwindSafe) -> Result<T, S
         }
     })
 }
+
+/// A shared-memory marker file `<dir>/<stream>.current`: the case being executed is copied into it
+/// (no system call) before the implementation runs, so that if the harness dies of a signal the
+/// culprit input is on disk.
+pub struct Marker {
+    ptr: *mut u8,
+    cap: usize,
+}
+impl Marker {
+    pub fn new(dir: &str, stream: &str) -> Marker {
+        use std::os::unix::io::AsRawFd;
+        let cap = 4 << 20;
+        let f = std::fs::OpenOptions::new().read(true).write(true).create(true).truncate(true)
+            .open(format!("{dir}/{stream}.current")).unwrap();
+        f.set_len(cap as u64).unwrap();
+        let ptr = unsafe {
+            libc::mmap(std::ptr::null_mut(), cap, libc::PROT_READ | libc::PROT_WRITE, libc::MAP_SHARED, f.as_raw_fd(), 0) as *mut u8
+        };
+        assert!(ptr as isize != -1);
+        Marker { ptr, cap }
+    }
+    pub fn set(&self, case: &str) {
+        let b = case.as_bytes();
+        let n = b.len().min(self.cap - 2);
+        unsafe {
+            std::ptr::copy_nonoverlapping(b.as_ptr(), self.ptr, n);
+            *self.ptr.add(n) = b'\n';
+            *self.ptr.add(n + 1) = 0;
+        }
+    }
+    pub fn clear(&self) {
+        unsafe { *self.ptr = 0; }
+    }
+}
